@@ -109,7 +109,7 @@ class ComparisonOp(_Constant[str]):
     pass
 
 
-@op_dataclass
+@dataclass(init=False, frozen=True, repr=True)
 class TupleOp(Operation):
     _operands: tuple[ExprT, ...]
     variable_name: str | None = non_operand_field(default=None)
@@ -118,6 +118,11 @@ class TupleOp(Operation):
     name: ClassVar[str] = "tuple"
     _mapper_method: ClassVar[str] = "map_tuple_op"
     unpacked_args_to_init: ClassVar[bool] = True
+
+    def __init__(self, *operands: ExprT, variable_name=None):
+        # matchpy rebuilds operations as type(op)(*operands, variable_name=...)
+        object.__setattr__(self, "_operands", operands)
+        object.__setattr__(self, "variable_name", variable_name)
 
     @property
     def operands(self):
